@@ -1,6 +1,7 @@
 package fio
 
 import "os"
+import "github.com/XiXi-2024/xixi-kv/verifhook"
 
 // FileIO 标准文件 IO 实现
 type FileIO struct {
@@ -8,6 +9,7 @@ type FileIO struct {
 }
 
 func NewFileIO(fileName string) (*FileIO, error) {
+	verifhook.IO("open", fileName, 0)
 	// 打开文件, 不存在则创建
 	fd, err := os.OpenFile(
 		fileName,
@@ -25,14 +27,17 @@ func (fio *FileIO) Read(b []byte, offset int64) (int, error) {
 }
 
 func (fio *FileIO) Write(b []byte) (int, error) {
+	verifhook.IO("write", fio.fd.Name(), int64(len(b)))
 	return fio.fd.Write(b)
 }
 
 func (fio *FileIO) Sync() error {
+	verifhook.IO("sync", fio.fd.Name(), 0)
 	return fio.fd.Sync()
 }
 
 func (fio *FileIO) Close() error {
+	verifhook.IO("close", fio.fd.Name(), 0)
 	return fio.fd.Close()
 }
 
